@@ -3,10 +3,15 @@ import Isotp.PyAgree.EvalLemmas
   `Address.__init__` (`Src.Address_init`) builds exactly the object the model's `mkAddress` builds; `AsymmetricAddress.__init__`
   (`Src.AsymmetricAddress_init`) raises exactly when `mkAsym` does.
 
-  The constructor body is cut into its 20 top-level statements (`S n`); there is one lemma per statement (`stmt0` .. `stmt19`:
-  what it does to the environment / when it raises), valid for EVERY environment that satisfies the read-only invariant `Inv`
-  (the attributes / arguments / class constants that the later statements read and nobody writes any more), and the lemmas are
-  chained with `step_next` / `step_err`.
+  Main statements (end of the file): `Address_init_rejects`, `Address_init_run`, `Address_init_constructs_raw` (all accepted arguments),
+  `Address_init_constructs` (literal equality with the model object; needs `noBoolArgs`, and `bool_argument_kept_as_bool` shows on a
+  concrete witness that it fails without: `txid=True` is accepted and stored as `True`, the model object has `some 1`),
+  `AsymmetricAddress_init_agrees`.
+
+  The constructor body is cut into its 20 top-level statements (`S n`); there is one lemma per statement (`stmts0to7`, `stmt8` ..
+  `stmt19`: what it does to the environment / when it raises), valid for EVERY environment that satisfies the read-only invariant
+  `Inv` (the attributes / arguments / class constants that the later statements read and nobody writes any more), and the lemmas are
+  chained with `step_next` / `step_err` (`upToValidate`, `afterValidate`).
 -/
 namespace Isotp.PyAgree
 open Isotp Isotp.Py
@@ -86,6 +91,10 @@ theorem initMeths_function (a : AddrArgs) (n : String) (env : Env) :
 
 theorem initMeths_setattr (a : AddrArgs) (attr : String) (v : PV) (env : Env) :
     (initMeths a).proc "setattr" [.meth "self", .str attr, v] env = .ok (env.set ("self." ++ attr) v) := rfl
+
+/-! Everything up to the section "The constructed object" is proof machinery: it lives in its own namespace so that the generic names
+    (`set_get`, `Inv`, `S`, ...) cannot clash with the other agreement files. -/
+namespace AddrInit
 
 /-! ## Infrastructure: the statements of the body, stepping through a block -/
 
@@ -321,7 +330,7 @@ theorem stmt15 (hI : Inv a m env) (hm : a.mode = some m) (hk : mkAddress a = .ok
   · simp [execStmt, execBlock, eval, *, txStage]
 
 /-- the `_is_for_me_*` method the constructor installs as `is_for_me` -/
-def isForMeName : Mode → String
+def _root_.Isotp.PyAgree.isForMeName : Mode → String
   | .n11 | .n29 => "_is_for_me_normal"
   | .e11 | .e29 => "_is_for_me_extended"
   | .nf29 => "_is_for_me_normal_fixed"
@@ -404,26 +413,26 @@ theorem Inv.setIds {a : AddrArgs} {m : Mode} {env : Env} (hI : Inv a m env) : In
   (hI.set (by decide) _).set (by decide) _
 
 theorem Inv.idsStage {a : AddrArgs} {m : Mode} {env : Env} (hI : Inv a m env) : Inv a m (idsStage a m env) := by
-  unfold PyAgree.idsStage; split
+  unfold AddrInit.idsStage; split
   · exact hI.setIds
   · exact hI
 
 theorem Inv.rxStage {a : AddrArgs} {m : Mode} {env : Env} (hI : Inv a m env) : Inv a m (rxStage a m h env) := by
-  unfold PyAgree.rxStage; split
+  unfold AddrInit.rxStage; split
   · exact hI
   · dsimp only; split
     · exact (((hI.set (by decide) _).set (by decide) _).set (by decide) _)
     · exact ((hI.set (by decide) _).set (by decide) _)
 
 theorem Inv.txStage {a : AddrArgs} {m : Mode} {env : Env} (hI : Inv a m env) : Inv a m (txStage a m h env) := by
-  unfold PyAgree.txStage; split
+  unfold AddrInit.txStage; split
   · exact hI
   · dsimp only; split
     · exact (((hI.set (by decide) _).set (by decide) _).set (by decide) _)
     · exact ((hI.set (by decide) _).set (by decide) _)
 
 theorem Inv.isForMeStage {a : AddrArgs} {m : Mode} {env : Env} (hI : Inv a m env) : Inv a m (isForMeStage a m env) := by
-  unfold PyAgree.isForMeStage; split
+  unfold AddrInit.isForMeStage; split
   · exact hI
   · exact hI.set (by decide) _
 
@@ -463,7 +472,7 @@ theorem upToValidate :
     rw [step_next rfl e]; rfl
 
 /-- **Rejection**: when `validate` rejects the arguments, so does the constructor (the statements before the call never raise). -/
-theorem Address_init_rejects (_hm : a.mode = some m) (hv : validateAddr a = false) :
+theorem _root_.Isotp.PyAgree.Address_init_rejects (_hm : a.mode = some m) (hv : validateAddr a = false) :
     runFn (initMeths a) (initEnv a m) Src.Address_init = .error (.exc .ValueError) := by
   have e : execBlock (initMeths a) (initEnv a m) Src.Address_init = .error (.exc .ValueError) := by
     have := upToValidate a m
@@ -498,6 +507,9 @@ theorem afterValidate (hm : a.mode = some m) (hk : mkAddress a = .ok h) :
   rfl
 
 end chain
+
+end AddrInit
+open AddrInit
 
 /-! ## The constructed object -/
 
@@ -671,7 +683,9 @@ theorem halfEnv_agree (env : Env) (h1 : ∀ kv ∈ expectedAttrs h, env kv.1 = s
 /-- **Construction (unqualified form)**: for ALL arguments that `mkAddress` accepts, the constructor returns `None` and the object has:
     the five identifier / address-byte attributes equal to the ARGUMENTS themselves, each Python-`==` to the model's field
     (literally equal unless the argument is a `bool`: see `Address_init_constructs` / `bool_argument_kept_as_bool`),
-    every other attribute exactly as the model object says, and none of the attributes of `unsetAttrs`. -/
+    every other attribute exactly as the model object says, and none of the attributes of `unsetAttrs`.
+    (The four `_{rx,tx}_arbitration_id_*` attributes are what `initMeths` says the getters return, i.e. the model's `Half.rxId` /
+    `Half.txId`; the getters' own agreement theorems start from `halfEnv h`, which a `bool` argument does not literally satisfy.) -/
 theorem Address_init_constructs_raw (hm : a.mode = some m) (hk : mkAddress a = .ok h) :
     ∃ env', runFn (initMeths a) (initEnv a m) Src.Address_init = .ok (pnone, env') ∧
       (∀ kv ∈ rawIdAttrs a ++ otherAttrs h, env' kv.1 = some kv.2) ∧
